@@ -1,11 +1,12 @@
 #!/bin/bash
-# tools/intake.sh <pid> [checks...] -- copy /tmp/seed2_<pid>/m{1,2,3} to seeded/<pid>_m{4,5,6},
+# [ROUND=3] tools/intake.sh <pid> [checks...] -- copy /tmp/seed<round>_<pid>/m{1,2,3} to seeded/<pid>_m{3(round-1)+1..},
 # confirm each independently (demo clean/mutant, full test-suite) and run the given checks
 # (default: the property's own) against each in an isolated worktree.  Results: /tmp/intake_<pid>.log
 pid=$1; shift; checks=${@:-$pid}
+round=${ROUND:-2}; off=$(( (round-1)*3 ))
 cd /verif
 for k in 1 2 3; do
-  src=/tmp/seed2_$pid/m$k; n=$((k+3)); name=${pid}_m$n
+  src=/tmp/seed${round}_$pid/m$k; n=$((k+off)); name=${pid}_m$n
   [ -f $src/patch.diff ] || { echo "$name: no patch"; continue; }
   mkdir -p seeded/$name; cp $src/patch.diff $src/demo.py $src/meta.json seeded/$name/ 2>/dev/null
   (
